@@ -315,8 +315,8 @@ Proof.
   intros H. apply Qle_bool_iff in H. exact H.
 Qed.
 
-Theorem enclosure_trop_exact G w K lo u :
-  sr_ring trop_ops -> sr_ordered trop_ops ->
+Theorem enclosure_trop_exact :
+  sr_ring trop_ops -> sr_ordered trop_ops -> forall G w K lo u,
   wf_grammar G = true ->
   enclosure trop_ops (fun x => x) (fun x => x) tleb G w K = Some (lo, u) ->
   u = lo
@@ -356,8 +356,8 @@ Proof.
   - unfold Qcle. pose proof (qnn a) as Ha. apply nnb_le in Ha. exact Ha.
 Qed.
 
-Theorem enclosure_real_sound G w K lo u :
-  sr_ring ereal_ops -> sr_ordered ereal_ops ->
+Theorem enclosure_real_sound :
+  sr_ring ereal_ops -> sr_ordered ereal_ops -> forall G w K lo u,
   wf_grammar G = true ->
   enclosure ereal_ops rd_real infl_real eleb G w K = Some (lo, u) ->
   (forall k, env_le_on ereal_ops G (Zk ereal_ops G w k) (env_of ereal_ops u))
